@@ -72,8 +72,8 @@ func (c *ctx) exec(dir string, stdin []byte, env []string, limit string, args ..
 	return o
 }
 
-func (c *ctx) merge(dir, format string, files []string, stdin []byte) obs {
-	args := append([]string{"-merge", "-f", format}, files...)
+func (c *ctx) merge(dir, format string, files []string, stdin []byte, extra ...string) obs {
+	args := append(append([]string{"-merge", "-f", format}, extra...), files...)
 	// -merge is single-threaded work; a small runtime keeps the process cheap
 	return c.exec(dir, stdin, []string{"GOMAXPROCS=1", "GOGC=off"}, "120", args...)
 }
@@ -150,7 +150,7 @@ type viol struct {
 	Detail map[string]any `json:"detail"`
 }
 
-var allKinds = []string{"merge-failed", "text-differs-from-model", "json-differs-from-model", "exit-status-differs-from-model",
+var allKinds = []string{"merge-failed", "text-differs-from-model", "json-differs-from-model", "exit-status-differs-from-model", "show-ignored-differs-from-model",
 	"permutation-changes-output", "repeated-run-changes-output", "stdin-differs-from-files"}
 
 // evalCase runs the CLI on the case and returns one violation per kind at
@@ -196,6 +196,22 @@ func (c *ctx) evalCase(cs *Case, dir string, idx int, only string) []viol {
 	if want("exit-status-differs-from-model") {
 		if e := exitStatus(model, c.env.registered); e != base.Exit {
 			add("exit-status-differs-from-model", fmt.Sprintf("exit status %d, model says %d", base.Exit, e), map[string]any{"observed": base})
+		}
+	}
+	if want("show-ignored-differs-from-model") {
+		ignored := false
+		for _, m := range model {
+			ignored = ignored || m.P.Severity == sevIgnored
+		}
+		if ignored {
+			// -show-ignored displays ignored problems; they never count for the exit status
+			o := c.merge(dir, "text", files, nil, "-show-ignored")
+			exp := textLinesWithIgnored(model)
+			got := sortedLines(o.Stdout)
+			if strings.Join(exp, "\n") != strings.Join(got, "\n") || o.Exit != base.Exit {
+				add("show-ignored-differs-from-model", fmt.Sprintf("-merge -show-ignored (exit %d, without the flag %d): %s", o.Exit, base.Exit, firstN(diffLines(exp, got), 500)),
+					map[string]any{"expected_lines": exp, "observed": o})
+			}
 		}
 	}
 	if want("json-differs-from-model") {
